@@ -8,8 +8,11 @@ composition: the walker-to-validation glue of x12n_document (node is None fallba
 (err_handler), the 997/999 visitors, the HTML and XML sinks, the context reader's tree building, logging.  Those are
 covered only by the fuzz below.
 
-Tie / search (this file): structural mutation fuzz.  Conformant documents of every indexed map (harness/gendoc.py) x
-mutation kinds (MUTATIONS) plus arbitrary strings, through three entry points:
+Tie / search (this file): structural mutation fuzz.  A directed corpus (DIRECTED: the minimised inputs of every crash
+class found so far, run through every entry point, all 8 sink subsets x both charsets) and then conformant documents of
+every indexed map (harness/gendoc.py) x mutation kinds (MUTATIONS, one or two composed) plus arbitrary strings, through
+three entry points (quick: two complementary sink/charset configurations and two loop ids sampled per input, seeded;
+thorough: all 8 sink subsets with alternating charset, four loop ids; multiprocessing):
   x12n   pyx12.x12n_document.x12n_document   x sink subsets (997, HTML, XML) x charset B / E
   reader pyx12.x12file.X12Reader: iteration, pop_errors() after every segment, cleanup(), pop_errors()
   ctx    pyx12.x12context.X12ContextReader(...).iter_segments(loop_id) for loop_id None and a few loop ids
@@ -642,6 +645,47 @@ def arbitrary(r):
     return k, ''.join(chr(r.randrange(0, 256)) for _ in range(n))
 
 
+# ------------------------------------------------------------------------------------ directed corpus
+# minimised inputs of crash classes found earlier (delta-debugged replays): run first in every tier, through every entry
+# point, all 8 sink subsets x both charsets and a fixed list of loop ids, so that a known crash site is reported
+# deterministically and not only when a random mutant happens to reach it
+
+HDR4 = 'ISA*00*          *00*          *ZZ*SENDER         *ZZ*RECEIVER       *200101*1200*U*00401*000000001*0*P*:~'
+HDR5 = 'ISA*00*          *00*          *ZZ*SENDER         *ZZ*RECEIVER       *200101*1200*^*00501*000000001*0*P*:~'
+DIRECTED_LOOPS = [None, 'DETAIL', 'ISA_LOOP', 'GS_LOOP', 'ST_LOOP', '2000A']
+DIRECTED = [
+    ('header-only', HDR4), ('header-only-5010', HDR5),
+    ('orphan-GE-bare', HDR4 + 'GE~'), ('orphan-SE-bare', HDR4 + 'SE~'), ('orphan-IEA-bare', HDR4 + 'IEA~'),
+    ('orphan-GE', HDR5 + 'GE*1*1~'), ('orphan-SE', HDR4 + 'SE*1*0001~IEA*0*000000001~'),
+    ('TA1-bare', HDR4 + 'TA1~'), ('TA1-bad-element', HDR4 + 'TA1*000000001*200101*1200*X*000~IEA*0*000000001~'),
+    ('GS-blank', HDR4 + 'GS********~'), ('GS-bare', HDR4 + 'GS~'), ('GS-blank-GE', HDR4 + 'GS********~GE*0*~IEA*1*000000001~'),
+    ('GE-count-absent', HDR4 + 'GS*FA*******004010~GE~'), ('GE-count-empty', HDR4 + 'GS*FA*******004010~GE*~'),
+    ('GE-count-nonnumeric', HDR4 + 'GS*FA*A*B*20200101*1200*1*X*004010~GE*X*1~IEA*1*000000001~'),
+    ('hundred-elements', HDR4 + 'IEA' + '*' * 100 + 'A~'), ('hundred-elements-in-set', HDR4 + 'GS*HB*A*B*20200101*1200*1*X*004010X092A1~ST*271*0001~BHT' + '*' * 100 + 'A~'),
+    ('surplus-element-after-IEA', HDR4 + 'IEA~AK9***1~'), ('surplus-subelements', HDR4 + 'GS*HB:1:2:3*A*B*20200101*1200*1*X*004010X092A1~'),
+    ('HL-without-loop-start', HDR4 + 'GS*HB*******004010X092A1~ST*271~HL***20~'),
+    ('IEA-inside-set', HDR4 + 'GS*HN*******004010X093A1~ST*277~IEA~'),
+    ('278-BHT-map-switch', HDR4 + 'GS*HI*******004010X094A1~ST*278~BHT*0078*13~'),
+    ('278-BHT-unknown-purpose', HDR4 + 'GS*HI*******004010X094A1~ST*278~BHT*0078*ZZ~'),
+    ('element-separator-is-A', HDR4.replace('*', 'A') + 'GS~'),
+    ('ST-without-GS', HDR4 + 'ST*837*0001~SE*1*0001~IEA*0*000000001~'),
+    ('segment-between-GS-and-ST', HDR4 + 'GS*HC*A*B*20200101*1200*1*X*004010X098A1~REF*1~ST*837*0001~SE*2*0001~GE*1*1~IEA*1*000000001~'),
+    ('second-ISA-short', HDR4 + 'ISA*1~'), ('unknown-GS08', HDR4 + 'GS*HC*A*B*20200101*1200*1*X*009999~'),
+]
+
+
+def directed_runs():
+    out = []
+    for name, text in DIRECTED:
+        for s in SINKS:
+            for cs in ('B', 'E'):
+                out.append((name, text, 'x12n', (s, cs)))
+        out.append((name, text, 'reader', None))
+        for lid in DIRECTED_LOOPS:
+            out.append((name, text, 'ctx', lid))
+    return out
+
+
 # ------------------------------------------------------------------------------------ cases
 
 _ENTRIES = None
@@ -886,7 +930,7 @@ def run(tier):
     res.cov['rule'] = ('a case is one (input text, entry point, configuration) run; texts are conformant documents of every indexed map under one '
                        'structural mutation kind (or two composed), and arbitrary strings; non-trivial = the text is not the unmutated document; '
                        'distinct by (map, generator seed, mutation kind, case seed, entry point, configuration)')
-    built = common.proof_stage(res, 'C07')
+    built = common.proof_stage(res, 'C07', targets=('Pyx12Verif', 'pyx12model', 'Pyx12Verif.Props.C07'))
     thorough = tier == 'thorough'
     seed = common.seed()
     for name in ('pyx12.x12n_document', 'pyx12.x12file', 'pyx12.x12context'):
@@ -907,6 +951,19 @@ def run(tier):
 
     dist_kind, dist_map, dist_entry, dist_cfg, outcomes = {}, {}, {}, {}, {}
     by_key = {}
+    # ---- directed corpus (minimised inputs of earlier findings)
+    ndirected = 0
+    for name, text, entry, cfg in directed_runs():
+        o = call(entry, text, cfg)
+        kind, key = judge(entry, o)
+        res.count()
+        ndirected += 1
+        res.distinct(('directed', name, entry, cfg_label(entry, cfg)))
+        oc = outcomes.setdefault(entry, {})
+        oc[kind] = oc.get(kind, 0) + 1
+        if key is not None:
+            by_key.setdefault(key, []).append((-1, {'map': '-', 'mutation': 'directed:' + name}, entry, cfg, o[1] if o[0] == 'exc' else None, text))
+    res.notes['directed_corpus'] = {'documents': len(DIRECTED), 'runs': ndirected}
     sizes = [0, 0, 0, 0]
     reader_obs = []
     for idx, label, size, rows, bad, text, rd in results:
